@@ -431,7 +431,7 @@ func cmdCheck(args []string) int {
 		for _, m := range mp.Alarmed {
 			fmt.Printf("SELFTEST-FALSE-ALARM: %s alarmed on behaviour-preserving change %s (verifier weakness, not a violation on /repo)\n", id, m)
 		}
-		fmt.Printf("must-pass corpus: %d run, %d quiet, %d alarmed, %d expected binding alarms, %d skipped\n", mp.Ran, mp.Quiet, len(mp.Alarmed), len(mp.Expected), len(mp.Skipped))
+		fmt.Printf("must-pass corpus: %d run, %d quiet, %d alarmed, %d expected binding alarms, %d skipped, %d not run (touch no package of this property)\n", mp.Ran, mp.Quiet, len(mp.Alarmed), len(mp.Expected), len(mp.Skipped), mp.Unrelated)
 		// agreement between the three solvers
 		disagree := 0
 		for _, vc := range all {
